@@ -36,7 +36,7 @@ COMPONENTS = {
 }
 ASSUMPTIONS = ['steps depend only on persisted state (arguments, context, persisted members)',
                'the same external resume values are replayed after each restore']
-EXPECTED_COUNTERS = ['kind:process', 'kind:workchain', 'crash:running', 'crash:waiting', 'crash:created', 'crash:double',
+EXPECTED_COUNTERS = ['crash:paused', 'kind:process', 'kind:workchain', 'crash:running', 'crash:waiting', 'crash:created', 'crash:double',
                      'crash:in_loop_body', 'crash:in_branch', 'restores>=3']
 PROGRAM_CFG = {
     'max_steps': 5,
@@ -89,7 +89,17 @@ def random_case(rng, tier):
         boundary = rng.randint(0, max(boundaries, 1))
         crashes[str(boundary)] = crashes.get(str(boundary), 0) + 1
     media = [rng.choice(persist.MEDIA) for _ in range(4)]
-    return {'program': program, 'crashes': crashes, 'media': media, 'loader': rng.choice(['default', 'default', 'custom'])}
+    pauses, crash_paused = [], []
+    if rng.random() < 0.3:
+        # the process is paused (request made from inside a transition) at some boundaries; at some of those the PAUSED
+        # process is checkpointed and abandoned, and the restored one has to be played
+        for _ in range(rng.randint(1, 2)):
+            boundary = rng.randint(1, max(boundaries, 1))
+            pauses.append(boundary)
+            if rng.random() < 0.7:
+                crash_paused.append(boundary)
+    return {'program': program, 'crashes': crashes, 'media': media, 'loader': rng.choice(['default', 'default', 'custom']),
+            'pauses': pauses, 'crash_paused': crash_paused}
 
 
 def shrink(case):
@@ -97,6 +107,11 @@ def shrink(case):
         candidate = copy.deepcopy(case)
         del candidate['crashes'][key]
         yield candidate
+    for key in ('pauses', 'crash_paused'):
+        for i in range(len(case.get(key) or [])):
+            candidate = copy.deepcopy(case)
+            del candidate[key][i]
+            yield candidate
     for key, count in case['crashes'].items():
         if count > 1:
             candidate = copy.deepcopy(case)
@@ -133,7 +148,8 @@ def run(case):
     result = Result()
     want, _ = reference(case['program'])
     seams.begin_case()
-    runner = persist.RestartRun(case['program'], case.get('crashes'), case.get('media'), case.get('loader', 'default'))
+    runner = persist.RestartRun(case['program'], case.get('crashes'), case.get('media'), case.get('loader', 'default'),
+                                pauses=case.get('pauses'), crash_paused=case.get('crash_paused'))
     try:
         proc = runner.run()
         if runner.load_error is not None:
@@ -150,7 +166,7 @@ def run(case):
         result.counters[f'kind:{kind}'] += 1
         result.counters['unsavable_points'] += runner.unsavable
         for state in runner.crash_states:
-            result.counters[f'crash:{state}'] += 1
+            result.counters[f'crash:{state if not state.startswith("paused") else "paused"}'] += 1
         if any(v > 1 for v in case['crashes'].values()) and runner.restores >= 2:
             result.counters['crash:double'] += 1
         if runner.restores >= 3:
@@ -162,6 +178,7 @@ def run(case):
             if "'if'" in flat:
                 result.counters['crash:in_branch'] += 1
         result.nontrivial = any(s != 'created' for s in runner.crash_states)
+        outcome_keys_ignored = ()
 
         diff = common.first_difference(got['executed'], want['executed'])
         if diff is not None:
